@@ -147,7 +147,7 @@ func (eng *Engine) inferredCheck(fr *Frame, li *loopInfo, st *State, g string, e
 }
 
 func (eng *Engine) inferAndTranslate(unit, mode string, fn *ssa.Function, fc *FuncContract) (*VC, *Frame) {
-	if !fc.Houdini || eng.solvers == nil {
+	if eng.solvers == nil {
 		return eng.translate(unit, mode, fn, fc, false)
 	}
 	hs := &houdiniState{dead: map[string]bool{}, seen: map[string]bool{}}
